@@ -111,6 +111,13 @@ type FS struct {
 	Fault func(op *simhook.FSOp, seq int) (syscall.Errno, int)
 	// Finalizers counts suppressed runtime.SetFinalizer registrations.
 	Finalizers int
+	// Quota > 0: the simulated disk holds at most that many written bytes;
+	// a write beyond it fails with ENOSPC (nothing applied).  Scenarios whose
+	// correct output is small use it so that a broken tree that copies
+	// gigabytes meets a full disk instead of exhausting the machine's tmpfs.
+	Quota    int64
+	written  int64
+	QuotaHit bool
 	handles    []io.Closer
 	stdout     []byte
 	stderr     []byte
@@ -206,6 +213,13 @@ func (fs *FS) FSBefore(op *simhook.FSOp) simhook.FSVerdict {
 			short = TornPrefix(op.Len)
 		}
 		return simhook.FSVerdict{Err: pathErr(op, syscall.EIO), Short: short}
+	}
+	if fs.Quota > 0 && (op.Kind == "write" || op.Kind == "writeat") {
+		if fs.written+int64(op.Len) > fs.Quota {
+			fs.QuotaHit = true
+			return simhook.FSVerdict{Err: pathErr(op, syscall.ENOSPC)}
+		}
+		fs.written += int64(op.Len)
 	}
 	if fs.Fault != nil {
 		if e, short := fs.Fault(op, k); e != 0 {
